@@ -490,6 +490,18 @@ def nest_lazy(ctx: Ctx) -> None:
             if isinstance(c, (ast.ListComp, ast.List)) and any(isinstance(n, ast.Name) and n.id == p for g in getattr(c, "generators", []) for n in ast.walk(g.iter)):
                 bad.append(c)
         ctx.ob(d, bad[0] if bad else None, not bad, f"{d.name} consumes its block stream one block at a time (for / zip / next), never materialising it", sel=f"stream:block:{d.name}", props=["C03"])
+    # bounded accumulation: what is carried from one block to the next is reduced again in the
+    # same iteration (the projection reserves two *reduced* chunks, not a growing concatenation)
+    pr = repo.get(f"{A.OPS}._partial_reduce")
+    pcfg, pfl = cfg_of(pr), flow_of(repo, pr)
+    loops = [n for n in pcfg.stmts(ast.For) if isinstance(n.stmt.iter, ast.Name) and n.stmt.iter.id == pr.params[0]]
+    if loops:
+        L = loops[0]
+        grows = [(nid, s_) for nid, ss in pfl.sites.items() for s_ in ss if s_.kind == "assign" and pcfg.in_loop(nid, L.id) and s_.value is not None and any(isinstance(c, ast.Call) and isinstance(c.func, ast.Attribute) and c.func.attr in ("concat", "concatenate", "stack") for c in ast.walk(s_.value))]
+        for nid, s_ in grows:
+            reducers = {n2 for n2, ss in pfl.sites.items() for s2 in ss if s2.name == s_.name and s2.kind == "assign" and pcfg.in_loop(n2, L.id) and isinstance(s2.value, ast.Call) and any(t.kind == "param" for t in repo.resolve_call(s2.value, pr, pr.module)) and mentions_name(s2.value, s_.name)}
+            ok = bool(reducers) and pcfg.all_paths_pass(nid, L.id, reducers)
+            ctx.ob(pr, pcfg.nodes[nid].stmt, ok, f"after `{s_.name}` grows by concatenation it is reduced again before the next block is read" + ("" if ok else " — the concatenation is carried across iterations: memory grows with the number of blocks in the group, beyond the two reduced chunks the projection reserves"), sel="stream:bounded-accumulator", props=["C03"])
 
 
 def _per_element_dispatch(repo: Repo, d: Def, seq: str, dct: str, per_key: str, depth: int):
